@@ -243,7 +243,7 @@ _ADD = {
     "C09": " In a third of the runs 1-4 idle sessions of the nodes are removed (evicted) while senders wait for acknowledgements (the "
            "session-removed notification reaches every waiter).",
     "C11": " Family damaged-resumption-cache: the stored CASE resumption blob is damaged while the device is down (empty, truncated, bit / byte "
-           "flips, garbage, extension): start-up is not prevented, every committed fabric is there.",
+           "flips, garbage, extension): start-up is not prevented, every committed fabric is there. confirmed-changes-then-restart also writes a group key set, a group key map entry, AddGroup and a second AddGroup that only renames the group (the simulated device carries the Groups cluster), each confirmed before the crash.",
     "C14": " Without faults every read / subscribe is answered to the end (oracle answer-abandoned).",
     "C15": " Family handshakes-under-loss: two real commissioners commission and operate one real device under 5-30 % loss, duplication, delay "
            "and a device restart (resumption): all datagrams of a node under one session id and counter (PASE, Sigma1/2/3, Sigma2Resume, IM) are "
